@@ -259,6 +259,14 @@ func (s *Stack) open() error {
 	}
 	s.Faker = gofakes3.New(be, opts...)
 	s.Handler = s.Faker.Server()
+	if s.guard != nil {
+		// the recursion guard counts opens per request
+		inner, g := s.Handler, s.guard
+		s.Handler = http.HandlerFunc(func(w http.ResponseWriter, r *http.Request) {
+			atomic.StoreInt64(&g.n, 0)
+			inner.ServeHTTP(w, r)
+		})
+	}
 	return nil
 }
 
